@@ -37,6 +37,10 @@ const (
 	FaultOpenLatency = "open_latency"
 	// FaultCloseError: Close of the reader reports an error (the reader counts as closed).
 	FaultCloseError = "close_error"
+	// FaultCtxCancel: from transport event Event on, the context the evaluation runs
+	// under is cancelled, but the daemon goes on answering (requests already in
+	// flight complete).
+	FaultCtxCancel = "ctx_cancel"
 	// FaultInventoryChange: from the K-th ContainerList call on, the container is
 	// reported with another state and name (it was restarted/renamed meanwhile).
 	FaultInventoryChange = "inventory_change"
